@@ -8,7 +8,9 @@ from . import c08_lib as L
 from . import c08 as C8
 from .sx import Sym, d_float, d_opt, d_str, e_float, some
 
-RULE = ('a systematic slice: SetPid immediately followed by ONE operation (set/inc/dec/observe/get/new child/new metric) for every '
+RULE = ('deterministic slices first: changes to and from the falsy identities 0 and empty string; real os.fork() after which the '
+        'PARENT adds keys to the shared per-type file before the child performs its first operation; two threads issuing their '
+        'first inc concurrently after an identity change with the first pre-empted inside the re-binding; then a systematic slice: SetPid immediately followed by ONE operation (set/inc/dec/observe/get/new child/new metric) for every '
         'gauge mode and metric type, labelled and unlabelled, warm and cold; identities numeric and NON-numeric (hex ids ending '
         'in b/d, ids with dots, ids that are suffixes of one another); then '
         'operation histories of one worker closure over counters, gauges (all 10 modes), summaries and histograms, labelled '
@@ -32,7 +34,7 @@ TIME_BUDGET = {'quick': int(_os.environ.get('C08_BUDGET', '60')), 'thorough': in
 
 # identities: numeric pids with shared decimal prefixes, and non-numeric worker ids (process_identifier may return any
 # string usable in a file name): hex ids ending in b / d, ids containing '.', ids that are suffixes of one another
-PIDS = [1, 11, 12, 2, 'c0ffee0b', 'c0ffee0d', 'c0ffee0', 'w.d', 'db', 'b', '1d', 'bd.']
+PIDS = [1, 11, 12, 2, 0, '', 'c0ffee0b', 'c0ffee0d', 'c0ffee0', 'w.d', 'db', 'b', '1d', 'bd.']
 
 
 def base_history(rng, n, wild=False):
@@ -66,7 +68,10 @@ def base_history(rng, n, wild=False):
             ops.append(['obs', 0, d['id'], lv, rng.choice(vals)])
         elif d['mode'] in ('mostrecent', 'livemostrecent') or r < 0.6:
             clock[0] += rng.choice([0.0, 1.0, 0.5])
-            ops.append(['set', 0, d['id'], lv, rng.choice(vals), clock[0]])
+            if rng.random() < 0.2:
+                ops.append(['settime', 0, d['id'], lv, clock[0]])               # Gauge.set_to_current_time()
+            else:
+                ops.append(['set', 0, d['id'], lv, rng.choice(vals), clock[0]])
         elif r < 0.8:
             ops.append(['inc', 0, d['id'], lv, rng.choice(vals)])
         else:
@@ -85,7 +90,7 @@ def fix_restarts(cat, ops):
             if op[2] in made:
                 continue
             made.add(op[2])
-        elif op[0] in ('child', 'inc', 'dec', 'set', 'obs', 'get'):
+        elif op[0] in ('child', 'inc', 'dec', 'set', 'settime', 'race', 'obs', 'get'):
             if op[2] not in made:
                 made.add(op[2])
                 out.append(['new', 0, op[2]])
@@ -132,8 +137,62 @@ def first_op_slice(rng):
                     yield {'metrics': [d, other], 'ops': ops, 'snap': True}
 
 
+def falsy_identity_slice():
+    """identities that are falsy in Python (0, '') are identities like any other: changes to and from them"""
+    c = dict(id=0, kind='counter', name='c', help='cc', labelnames=[])
+    g = dict(id=1, kind='gauge', name='g', help='gg', mode='all', labelnames=['a'])
+    for p0, p1 in ((0, 1), (1, 0), ('', 1), (1, ''), (0, ''), ('', 0)):
+        ops = [['spawn', 0, p0], ['new', 0, 0], ['new', 0, 1], ['inc', 0, 0, [], 1.0], ['set', 0, 1, ['x'], 5.0, 1000.0],
+               ['setpid', 0, p1], ['inc', 0, 0, [], 2.0], ['set', 0, 1, ['x'], 7.5, 1001.0], ['get', 0, 0, [], ''],
+               ['setpid', 0, p0], ['inc', 0, 0, [], 4.0], ['get', 0, 0, [], ''], ['inc', 0, 1, ['x'], 1.0], ['collect'],
+               ['setpid', 0, p1], ['get', 0, 0, [], ''], ['collect']]
+        yield {'metrics': [c, g], 'ops': ops, 'snap': True}
+
+
+def race_slice():
+    """schedules: after an identity change TWO THREADS issue their first inc concurrently; the first is pre-empted inside
+    the re-binding (in the store's read_value) and the second gets a quarter of a second to run there"""
+    decls = [dict(kind='counter', name='c', help='cc', labelnames=[]), dict(kind='counter', name='cl', help='cc', labelnames=['a']),
+             dict(kind='gauge', name='g', help='gg', mode='all', labelnames=[]),
+             dict(kind='gauge', name='gs', help='gg', mode='livesum', labelnames=['a'])]
+    for d0 in decls:
+        d = dict(d0, id=0)
+        lv = ['x'] if d['labelnames'] else []
+        ops = [['spawn', 0, 1], ['new', 0, 0], ['inc', 0, 0, lv, 8.0], ['setpid', 0, 2], ['race', 0, 0, lv, 1.0, 2.0],
+               ['collect'], ['setpid', 0, 1], ['race', 0, 0, lv, 0.5, 0.25], ['collect']]
+        yield {'metrics': [d], 'ops': ops, 'snap': True}
+
+
+def fork_late_slice():
+    """real os.fork(); the PARENT then adds new keys to the per-type file it shares with the child (new label set, new
+    metric); only then does the child perform its first operation; the parent goes on; everything is collected"""
+    decls = [dict(kind='counter', name='c', help='cc'), dict(kind='summary', name='s', help='ss'),
+             dict(kind='histogram', name='h', help='hh', buckets=[1.0, 2.5]), dict(kind='gauge', name='g', help='gg', mode='all'),
+             dict(kind='gauge', name='gm', help='gg', mode='max')]
+    for d0 in decls:
+        d = dict(d0, id=0, labelnames=['a'])
+        d2 = dict(d0, id=1, labelnames=[], name=d0['name'] + '2')
+
+        def upd(m, lv, v):
+            k = d0['kind']
+            return (['inc', 0, m, lv, v] if k == 'counter' else ['obs', 0, m, lv, v] if k in ('summary', 'histogram')
+                    else ['set', 0, m, lv, v, 1000.0 + v])
+        for child_first in (upd(0, ['x'], 2.0), upd(0, ['z'], 2.0)):
+            ops = [['new', 0, 0], upd(0, ['x'], 1.0),
+                   ['fork_late', 3, 1], upd(0, ['y'], 4.0), ['new', 0, 1], upd(1, [], 8.0),     # parent, after the fork
+                   child_first,                                                             # child's first operation
+                   upd(0, ['y'], 0.5), upd(1, [], 0.25), upd(0, ['x'], 0.125)]              # parent goes on
+            yield {'metrics': [d, d2], 'ops': ops, 'fork': True}
+
+
 def cases(ctx):
     rng = ctx.rng
+    for c in falsy_identity_slice():
+        yield c
+    for c in fork_late_slice():
+        yield c
+    for c in race_slice():
+        yield c
     for c in first_op_slice(rng):
         yield c
     # every position of short histories, with a change to a new identity and a change back to the first one
@@ -174,7 +233,19 @@ def fork_case(rng):
         r = rng.random()
         if r < 0.12:
             out.append(['fork_chain'])
-        elif r < 0.24:
+        elif r < 0.18 and i + 2 < len(ops):
+            k = 0                                   # parent first (may create objects), then the child's updates
+            while k < 2 and i + k < len(ops):
+                k += 1
+            fresh = {op[2] for op in ops[i:i + k] if op[0] == 'new'}       # objects the child does not have
+            n = 0
+            while n < 2 and i + k + n < len(ops) and ops[i + k + n][0] != 'new' and ops[i + k + n][2] not in fresh:
+                n += 1
+            out.append(['fork_late', k, n])
+            out.extend(ops[i:i + k + n])
+            i += k + n
+            continue
+        elif r < 0.30:
             n = 0                                   # the side process only updates: objects it would create are lost to the parent
             want = rng.randrange(0, 4)
             while n < want and i + n < len(ops) and ops[i + n][0] != 'new':
@@ -239,6 +310,7 @@ def translate(case):
             n += 1
         return n
     for op in case['ops']:
+        op = C8.norm_op(op)
         kind = op[0]
         n = 0
         if kind == 'spawn':
@@ -266,6 +338,10 @@ def translate(case):
                 elif kind == 'get':
                     hops.append((Sym('get'), idx[key + (op[4],)]))
                     n += 1
+                elif kind == 'race':
+                    hops.append((Sym('inc'), idx[key + ('',)], e_float(float(op[4]))))
+                    hops.append((Sym('inc'), idx[key + ('',)], e_float(float(op[5]))))
+                    n += 2
                 elif d['kind'] == 'counter':
                     hops.append((Sym('inc'), idx[key + ('',)], e_float(float(op[4]))))
                     n += 1
@@ -355,11 +431,44 @@ def direct_fork(case, obs):
     totals = C8.Oracle(case)
     totals.pid[0] = 0
     for op in case['ops']:
-        if op[0] in ('fork_chain', 'fork_side'):
+        if op[0] in ('fork_chain', 'fork_side', 'fork_late'):
             continue
         totals.apply(op)
     r = check_conservation(totals.expected(), o['fams'])
     return ('after real forks: ' + r) if r else None
+
+
+def book(op, pid, cat, totals, per_pid):
+    """record one issued operation: identity-blind totals and what identity `pid` issued to each cell"""
+    kind = op[0]
+    if kind not in ('spawn', 'restart', 'setpid', 'get', 'collect', 'merge'):
+        totals.pid[0] = pid
+        totals.apply(op)
+    if kind not in ('inc', 'dec', 'set', 'obs'):
+        return
+    d = cat[op[2]]
+    ls = tuple(sorted(zip(d['labelnames'], op[3])))
+    me = str(pid)
+    if d['kind'] == 'counter' or (d['kind'] == 'gauge' and kind == 'inc'):
+        cell = per_pid.setdefault((d['name'], ls, ''), {})
+        cell[me] = cell.get(me, 0.0) + op[4]
+    elif d['kind'] == 'gauge' and kind == 'dec':
+        cell = per_pid.setdefault((d['name'], ls, ''), {})
+        cell[me] = cell.get(me, 0.0) + -op[4]
+    elif d['kind'] == 'gauge':
+        per_pid.setdefault((d['name'], ls, ''), {})[me] = float(op[4])
+    else:
+        cell = per_pid.setdefault((d['name'], ls, 'sum'), {})
+        cell[me] = cell.get(me, 0.0) + op[4]
+        if d['kind'] == 'summary':
+            cell = per_pid.setdefault((d['name'], ls, 'count'), {})
+            cell[me] = cell.get(me, 0.0) + 1
+        else:
+            for bi, b in enumerate(C8.Oracle.bounds(d)):
+                if op[4] <= b:
+                    cell = per_pid.setdefault((d['name'], ls, bi), {})
+                    cell[me] = cell.get(me, 0.0) + 1
+                    break
 
 
 def direct(case, obs):
@@ -390,33 +499,10 @@ def direct(case, obs):
             if base not in prev and not base.endswith('_%s.db' % pid):
                 return 'op %d %r ran under identity %s and created %s' % (i, op, pid, base)
         prev = snap
-        # 2. bookkeeping of what was issued
-        if kind not in ('spawn', 'restart', 'setpid', 'get', 'collect', 'merge'):
-            totals.pid[0] = pid
-            totals.apply(op)
-        if kind in ('inc', 'dec', 'set', 'obs'):
-            d = cat[op[2]]
-            ls = tuple(sorted(zip(d['labelnames'], op[3])))
-            if d['kind'] == 'counter' or (d['kind'] == 'gauge' and kind == 'inc'):
-                cell = per_pid.setdefault((d['name'], ls, ''), {})
-                cell[str(pid)] = cell.get(str(pid), 0.0) + op[4]
-            elif d['kind'] == 'gauge' and kind == 'dec':
-                cell = per_pid.setdefault((d['name'], ls, ''), {})
-                cell[str(pid)] = cell.get(str(pid), 0.0) + -op[4]
-            elif d['kind'] == 'gauge':
-                per_pid.setdefault((d['name'], ls, ''), {})[str(pid)] = float(op[4])
-            else:
-                cell = per_pid.setdefault((d['name'], ls, 'sum'), {})
-                cell[str(pid)] = cell.get(str(pid), 0.0) + op[4]
-                if d['kind'] == 'summary':
-                    cell = per_pid.setdefault((d['name'], ls, 'count'), {})
-                    cell[str(pid)] = cell.get(str(pid), 0.0) + 1
-                else:
-                    for bi, b in enumerate(C8.Oracle.bounds(d)):
-                        if op[4] <= b:
-                            cell = per_pid.setdefault((d['name'], ls, bi), {})
-                            cell[str(pid)] = cell.get(str(pid), 0.0) + 1
-                            break
+        # 2. bookkeeping of what was issued (a race is two increments, set_to_current_time a set)
+        subops = ([['inc'] + op[1:4] + [op[4]], ['inc'] + op[1:4] + [op[5]]] if kind == 'race' else [C8.norm_op(op)])
+        for sub in subops:
+            book(sub, pid, cat, totals, per_pid)
         # 3. get() continues from what this identity's file holds = what this identity issued so far
         if kind == 'get':
             d = cat[op[2]]
@@ -494,7 +580,7 @@ def nontrivial(case, obs):
     if isinstance(obs, dict) or not obs:
         return False
     if case.get('fork'):
-        return any(op[0] in ('fork_chain', 'fork_side') for op in case['ops'])
+        return any(op[0] in ('fork_chain', 'fork_side', 'fork_late') for op in case['ops'])
     changed = False
     pid = None
     touched = False
@@ -505,7 +591,7 @@ def nontrivial(case, obs):
             pid = op[2]
         elif op[0] == 'spawn':
             pid = op[2]
-        elif op[0] in ('new', 'child', 'inc', 'dec', 'set', 'obs'):
+        elif op[0] in ('new', 'child', 'inc', 'dec', 'set', 'settime', 'race', 'obs'):
             touched = True
     pids = {b.rsplit('_', 1)[-1] for b in obs[-1].get('snap', {})}
     return changed and len(pids) >= 2
@@ -515,7 +601,8 @@ def classify(case, obs):
     ks = []
     ops = case['ops']
     if case.get('fork'):
-        return ['real_fork_case', 'real_forks=%d' % min(5, sum(1 for op in ops if op[0].startswith('fork')))]
+        return ['real_fork_case', 'real_forks=%d' % min(5, sum(1 for op in ops if op[0].startswith('fork')))] + \
+            (['fork_then_parent_adds_keys_then_child_first_op'] if any(op[0] == 'fork_late' for op in ops) else [])
     ks.append('setpids=%d' % min(4, sum(1 for op in ops if op[0] == 'setpid')))
     pid0 = None
     seen = set()
@@ -537,13 +624,19 @@ def classify(case, obs):
             seen.add(op[2])
         elif op[0] in ('new', 'child'):
             made.add((op[2], tuple(op[3]) if len(op) > 3 else ()))
-        elif op[0] in ('inc', 'dec', 'set', 'obs'):
+        elif op[0] in ('inc', 'dec', 'set', 'settime', 'race', 'obs'):
             made.add((op[2], tuple(op[3])))
             updated.add((op[2], tuple(op[3])))
     if isinstance(obs, dict):
         ks.append('harness_error')
     else:
         ks.append('files_at_end=%d' % min(8, len(obs[-1].get('snap', {}))))
+        for o in obs:
+            if 'paused' in o:
+                ks.append('race:first_thread_paused_in_rebind=%s' % o['paused'])
+                ks.append('race:second_thread_ran_meanwhile=%s' % o['second_thread_ran_during_rebind'])
+    if any(not op[2] for op in ops if op[0] in ('spawn', 'setpid', 'restart')):
+        ks.append('falsy_identity')
     return sorted(set(ks))
 
 
